@@ -13,6 +13,7 @@ import (
 	"os"
 	"path/filepath"
 	"strings"
+	"sync"
 	"time"
 
 	"github.com/kardiachain/go-kardia/consensus"
@@ -120,14 +121,22 @@ type world struct {
 	tlim  int64 // abstract total size limit (records), 0 = off
 	gone  int   // oldest files removed by the total size limit (their entries in disk stay, empty)
 	base  int   // index of the group's first file (see seedBase); disk[i] is file index base+i
-	disk  [][]seg
-	pend  []int
-	recs  map[int]*rec
-	next  int
-	rng   *rand.Rand
-	opt   int64               // > 0: head size limit given to NewWAL through autofile.GroupHeadSizeLimit (TV)
-	pick  func(id int) string // concrete kind for the abstract kind "m"
-	zero  map[int]bool        // ids whose payload must end in a zero byte
+	// group writes (autofile.Group.Write calls) of the message being written, see hookGroupWrite
+	gwCount int    // seen so far in the current BaseWAL.Write / Start
+	gwPer   int    // per record, as observed on the last record written (1 as implemented)
+	fireAt  int    // run fire behind this group write of the next message (0 = never)
+	fire    func() // consumed when it runs
+	// a frame that a rotation inside one Write split over two files (only a changed encoder does that)
+	carry     []byte
+	carryFile int
+	disk      [][]seg
+	pend      []int
+	recs      map[int]*rec
+	next      int
+	rng       *rand.Rand
+	opt       int64               // > 0: head size limit given to NewWAL through autofile.GroupHeadSizeLimit (TV)
+	pick      func(id int) string // concrete kind for the abstract kind "m"
+	zero      map[int]bool        // ids whose payload must end in a zero byte
 }
 
 func (w *world) dir() string  { return filepath.Join(w.root, fmt.Sprint("g", w.gen)) }
@@ -156,7 +165,27 @@ func (w *world) seedBase(base int) error {
 	return os.WriteFile(fmt.Sprintf("%s.%03d", w.head(), base-1), nil, 0o600)
 }
 
+// The hook at the end of autofile.(*Group).Write is one package variable; the worlds of all
+// workers register their group here.
+var (
+	hookOnce sync.Once
+	hookReg  sync.Map // *auto.Group -> *world
+)
+
+func hookGroupWrite(g *auto.Group) {
+	if v, ok := hookReg.Load(g); ok {
+		w := v.(*world)
+		w.gwCount++ // the hook runs on the goroutine that called Write: the driver's own
+		if w.fire != nil && w.gwCount == w.fireAt {
+			f := w.fire
+			w.fire = nil
+			f()
+		}
+	}
+}
+
 func (w *world) open() error {
+	hookOnce.Do(func() { auto.VerifAfterGroupWrite = hookGroupWrite })
 	lim := int64(1 << 40) // MBT sets the limit in front of every head-size check (world.tick)
 	if w.opt > 0 {
 		lim = w.opt
@@ -167,15 +196,25 @@ func (w *world) open() error {
 	}
 	wal.SetFlushInterval(time.Hour) // no background flushes: the behaviour decides when the buffer reaches the disk
 	w.wal = wal
+	hookReg.Store(wal.Group(), w)
+	w.gwCount = 0
 	if err := wal.Start(); err != nil {
 		return err
+	}
+	if w.gwCount > 0 { // OnStart wrote the marker of a new log: so many group writes make one record
+		w.gwPer = w.gwCount
 	}
 	if w.base > 0 && wal.Group().MaxIndex() == w.base {
 		// BaseWAL.OnStart writes the marker of height 0 into a NEW log only (empty head and no rotated file).  The seeded
 		// empty file wal.<base-1> is the only numbered file here, i.e. this is what a new log looks like when its indices
 		// start at base: the marker is written for it
 		if sz, err := wal.Group().Head.Size(); err == nil && sz == 0 {
-			return wal.WriteSync(consensus.EndHeightMessage{Height: 0})
+			w.gwCount = 0
+			err := wal.WriteSync(consensus.EndHeightMessage{Height: 0})
+			if w.gwCount > 0 {
+				w.gwPer = w.gwCount
+			}
+			return err
 		}
 	}
 	return nil
@@ -188,6 +227,7 @@ func (w *world) close() {
 	w.wal.Stop()
 	w.wal.Wait()
 	w.wal.Group().Head.Close() // Group.Close leaves the AutoFile's goroutines running
+	hookReg.Delete(w.wal.Group())
 	w.wal = nil
 }
 
@@ -239,47 +279,100 @@ func (w *world) sync(startRec bool) string {
 			return fmt.Sprintf("file %d: the %d bytes already on disk changed (now %d bytes)", i, len(known), len(have))
 		}
 		rest := have[len(known):]
+		if w.carry != nil && i > w.carryFile && len(rest) > 0 {
+			// the frame that begins at the end of file carryFile goes on here
+			comb := append(append([]byte(nil), w.carry...), rest...)
+			l := -1
+			if len(comb) >= 8 {
+				l = int(binary.BigEndian.Uint32(comb[4:8]))
+			}
+			if l < 0 || l > maxMsg || len(comb) < 8+l {
+				return fmt.Sprintf("file %d ends inside a frame that the %d new bytes of file %d do not complete", w.carryFile, len(rest), i)
+			}
+			id, txt := w.take(comb[:8+l], startRec, i)
+			if txt != "" {
+				return txt
+			}
+			used := 8 + l - len(w.carry)
+			w.disk[w.carryFile][len(w.disk[w.carryFile])-1].id = id
+			w.disk[i] = append(w.disk[i], seg{id: id, d: "split", data: append([]byte(nil), rest[:used]...)})
+			rest = rest[used:]
+			w.carry = nil
+		}
 		for len(rest) > 0 {
-			if len(rest) < 8 {
-				return fmt.Sprintf("file %d: %d stray bytes at the end", i, len(rest))
+			l := -1
+			if len(rest) >= 8 {
+				l = int(binary.BigEndian.Uint32(rest[4:8]))
 			}
-			l := int(binary.BigEndian.Uint32(rest[4:8]))
-			if l > maxMsg || len(rest) < 8+l {
-				return fmt.Sprintf("file %d: record of length %d does not fit in the %d new bytes", i, l, len(rest))
+			if l < 0 || (l <= maxMsg && len(rest) < 8+l) {
+				if i < len(w.disk)-1 && w.carry == nil {
+					// A file that is not the head ends inside a frame.  With the encoder as it is
+					// this cannot be; it is what a rotation between two group writes of one
+					// message leaves.  The shadow follows (so that the observers run on it), the
+					// layout will not be the specified one.
+					w.carry, w.carryFile = append([]byte(nil), rest...), i
+					w.disk[i] = append(w.disk[i], seg{id: -1, d: "split", data: w.carry})
+					break
+				}
+				return fmt.Sprintf("file %d: %d stray bytes at the end that are not a whole record", i, len(rest))
 			}
-			frame := rest[:8+l]
-			if crc32.Checksum(frame[8:], castagnoli) != binary.BigEndian.Uint32(frame[0:4]) {
-				return fmt.Sprintf("file %d: new record with a wrong CRC-32C", i)
+			if l > maxMsg {
+				return fmt.Sprintf("file %d: record of length %d", i, l)
 			}
-			var id int
-			if startRec && len(w.pend) == 0 {
-				// the EndHeight(0) that OnStart writes into an empty head
-				id = w.next
-				w.next++
-				m := consensus.EndHeightMessage{Height: 0}
-				w.recs[id] = &rec{id: id, kind: "eh", msg: m, can: canon(m)}
-			} else if len(w.pend) > 0 {
-				id, w.pend = w.pend[0], w.pend[1:]
-			} else {
-				return fmt.Sprintf("file %d: a record appeared on disk that nobody wrote", i)
+			id, txt := w.take(rest[:8+l], startRec, i)
+			if txt != "" {
+				return txt
 			}
-			r := w.recs[id]
-			got, err := consensus.NewWALDecoder(bytes.NewReader(frame)).Decode()
-			if err != nil {
-				return fmt.Sprintf("record %d (%s): written %s, does not decode: %v", id, r.kind, r.can, err)
-			}
-			if c := canon(got.Msg); c != r.can {
-				return fmt.Sprintf("record %d (%s): written %s, decodes as %s", id, r.kind, r.can, c)
-			}
-			if re := reencode(got); !bytes.Equal(re, frame) {
-				return fmt.Sprintf("record %d (%s): re-encoding the decoded message gives different bytes", id, r.kind)
-			}
-			r.orig = append([]byte(nil), frame...)
-			w.disk[i] = append(w.disk[i], seg{id: id, d: "ok", data: r.orig})
+			w.disk[i] = append(w.disk[i], seg{id: id, d: "ok", data: w.recs[id].orig})
 			rest = rest[8+l:]
 		}
 	}
 	return ""
+}
+
+// take checks a frame that appeared on disk (CRC-32C, decodes to the message written for the next
+// pending id, re-encodes to the same bytes) and assigns it that id.
+func (w *world) take(frame []byte, startRec bool, i int) (int, string) {
+	if crc32.Checksum(frame[8:], castagnoli) != binary.BigEndian.Uint32(frame[0:4]) {
+		return 0, fmt.Sprintf("file %d: new record with a wrong CRC-32C", i)
+	}
+	var id int
+	if startRec && len(w.pend) == 0 {
+		// the EndHeight(0) that OnStart writes into a new log
+		id = w.next
+		w.next++
+		m := consensus.EndHeightMessage{Height: 0}
+		w.recs[id] = &rec{id: id, kind: "eh", msg: m, can: canon(m)}
+	} else if len(w.pend) > 0 {
+		id, w.pend = w.pend[0], w.pend[1:]
+	} else {
+		return 0, fmt.Sprintf("file %d: a record appeared on disk that nobody wrote", i)
+	}
+	r := w.recs[id]
+	got, err := consensus.NewWALDecoder(bytes.NewReader(frame)).Decode()
+	if err != nil {
+		return 0, fmt.Sprintf("record %d (%s): written %s, does not decode: %v", id, r.kind, r.can, err)
+	}
+	if c := canon(got.Msg); c != r.can {
+		return 0, fmt.Sprintf("record %d (%s): written %s, decodes as %s", id, r.kind, r.can, c)
+	}
+	if re := reencode(got); !bytes.Equal(re, frame) {
+		return 0, fmt.Sprintf("record %d (%s): re-encoding the decoded message gives different bytes", id, r.kind)
+	}
+	r.orig = append([]byte(nil), frame...)
+	return id, ""
+}
+
+// split reports whether some file of the shadow ends or begins inside a frame.
+func (w *world) split() bool {
+	for _, f := range w.disk {
+		for _, s := range f {
+			if s.d == "split" {
+				return true
+			}
+		}
+	}
+	return false
 }
 
 func reencode(m *consensus.TimedWALMessage) []byte {
@@ -301,6 +394,35 @@ func hugeMsg(r *rand.Rand) consensus.WALMessage {
 		p2pID(strings.Repeat("x", maxMsg+1000)))
 }
 
+// Size classes: the abstract kinds "m1k", "m5k", "m40k" are ordinary messages (to the specification
+// they are "m") that the driver realises with padded real messages, so that the files of a log of a
+// handful of records cross 4096, 8192 and 65536 bytes and frames straddle the 4096-byte refill
+// boundaries of a buffered reader at seeded offsets.  (WALDecoder.Decode calls Read and ignores the
+// byte count: any reader that may return short reads in the middle of a file breaks it.)
+func sizeClass(r *rand.Rand, kind string) int {
+	switch kind {
+	case "m1k":
+		return 1100 + r.Intn(900)
+	case "m5k":
+		return 3500 + r.Intn(3500)
+	case "m40k":
+		return 30000 + r.Intn(18000) // some above the 40 960 bytes of the group's bufio.Writer
+	}
+	return 0
+}
+
+// genPadded: a block part with n data bytes, or a vote from a peer with an n-byte id.
+func genPadded(r *rand.Rand, n int) consensus.WALMessage {
+	if r.Intn(2) == 0 {
+		m := genMsg(r, "part", 0)
+		msg, peer, _ := consensus.VerifMsgInfoFields(m)
+		msg.(*consensus.BlockPartMessage).Part.Bytes = rbytes(r, n)
+		return consensus.VerifMsgInfo(msg, peer)
+	}
+	msg, _, _ := consensus.VerifMsgInfoFields(genMsg(r, "vote", 0))
+	return consensus.VerifMsgInfo(msg, p2pID(strings.Repeat("p", n)))
+}
+
 // write performs Write / WriteSync of an abstract record kind; returns the result class.
 func (w *world) write(sync bool, kind string, h int64) string {
 	var m consensus.WALMessage
@@ -312,21 +434,30 @@ func (w *world) write(sync bool, kind string, h int64) string {
 	case "huge":
 		m = hugeMsg(w.rng)
 	default:
+		pad := sizeClass(w.rng, kind)
 		if kind == "m" {
 			ck = w.pick(id)
 		}
-		m = genMsg(w.rng, ck, h)
-		if w.zero[id] {
+		if pad > 0 {
+			m = genPadded(w.rng, pad)
+		} else {
+			m = genMsg(w.rng, ck, h)
+		}
+		if w.zero[id] && pad == 0 {
 			for t := 0; t < 200 && !payloadTailZero(m); t++ {
 				m = genMsg(w.rng, ck, h)
 			}
 		}
 	}
 	var err error
+	w.gwCount = 0
 	if sync {
 		err = w.wal.WriteSync(m)
 	} else {
 		err = w.wal.Write(m)
+	}
+	if err == nil && w.gwCount > 0 {
+		w.gwPer = w.gwCount
 	}
 	if err != nil {
 		if strings.Contains(err.Error(), "too big") {
@@ -458,6 +589,7 @@ func (w *world) crash() error {
 	dead.Stop() // release the dead process's goroutines; it flushes into the OLD directory
 	dead.Wait()
 	dead.Group().Head.Close()
+	hookReg.Delete(dead.Group())
 	return err
 }
 
@@ -483,6 +615,10 @@ func zeroTail(frame []byte) int {
 	return z
 }
 
+// records above this size are the padded ones (size classes "m1k", "m5k", "m40k"): their bits and
+// offsets are sampled, not enumerated
+const bigFrame = 1024
+
 // variants returns the damaged forms of one record for class c.  all = every byte offset and every
 // bit that falls into the class (plus boundary values); otherwise a seeded selection.
 // For cut classes the result is the prefix of the record that stays in the file.
@@ -504,10 +640,18 @@ func variants(c string, frame []byte, all bool, r *rand.Rand, k int) [][]byte {
 			out = append(out, v)
 		}
 	case "body":
-		for off := 8; off < len(frame); off++ {
-			for bit := uint(0); bit < 8; bit++ {
-				out = append(out, flipBit(frame, off, bit))
+		if all && len(frame) <= bigFrame {
+			for off := 8; off < len(frame); off++ {
+				for bit := uint(0); bit < 8; bit++ {
+					out = append(out, flipBit(frame, off, bit))
+				}
 			}
+		} else { // first and last bit, and seeded ones (a padded record has hundreds of thousands)
+			out = append(out, flipBit(frame, 8, 7))
+			for i := 0; i < k; i++ {
+				out = append(out, flipBit(frame, 8+r.Intn(int(L)), uint(r.Intn(8))))
+			}
+			out = append(out, flipBit(frame, len(frame)-1, 0))
 		}
 		for i := 0; i < 3; i++ { // bursts of up to 4 bytes (<= 32 bits: detected with certainty)
 			v := append([]byte(nil), frame...)
@@ -554,8 +698,15 @@ func variants(c string, frame []byte, all bool, r *rand.Rand, k int) [][]byte {
 		// every offset inside the payload; whether the bytes that follow in the stream equal the
 		// missing ones (the S classes) is decided per variant by classConsistent
 		z := zeroTail(frame)
+		step := 1
+		if len(frame) > bigFrame && len(frame)-z-9 > 64 { // padded record: its ends, and seeded offsets in between
+			step = 1 + r.Intn((len(frame)-z-9)/32)
+		}
 		for n := 9; n < len(frame); n++ {
 			isZ := n >= len(frame)-z
+			if !isZ && step > 1 && n > 40 && n < len(frame)-z-40 && n%step != 0 {
+				continue
+			}
 			if strings.HasPrefix(c, "cutZero") == isZ {
 				out = append(out, frame[:n])
 			}
